@@ -54,8 +54,8 @@ def registry() -> Dict[str, Check]:
     reg: Dict[str, Check] = {}
     reg["C01"] = Check(
         "C01", {"C01"},
-        [Batch("B-mix", gen_b.gen_history, 40000, 400000, driver="B", budget_s=5.0),
-         Batch("A-engine", gen_a.gen_engine, 2500, 40000, driver="A", budget_s=20.0, profile="engine")],
+        [Batch("B-mix", gen_b.gen_history, 40000, 400000, driver="B", budget_s=30.0),
+         Batch("A-engine", gen_a.gen_engine, 2500, 40000, driver="A", budget_s=90.0, profile="engine")],
         nontrivial=lambda s: s["probes"].get("round_ge3_fills", 0) + s["probes"].get("last_pair_prices_differ", 0) > 0,
         rule="Seeded driver-B histories / driver-A runs; non-trivial = at least one matching round whose last pair "
              "had different limit prices or that produced >= 3 fills.",
@@ -64,8 +64,8 @@ def registry() -> Dict[str, Check]:
     )
     reg["C02"] = Check(
         "C02", {"C02"},
-        [Batch("B-mix", gen_b.gen_history, 30000, 400000, driver="B", budget_s=5.0),
-         Batch("A-engine", gen_a.gen_engine, 2500, 40000, driver="A", budget_s=20.0, profile="engine")],
+        [Batch("B-mix", gen_b.gen_history, 30000, 400000, driver="B", budget_s=30.0),
+         Batch("A-engine", gen_a.gen_engine, 2500, 40000, driver="A", budget_s=90.0, profile="engine")],
         nontrivial=lambda s: s["probes"].get("cmp_tie_price_time", 0) > 0 and s["stats"].get("rounds_nonempty", 0) > 0,
         rule="Seeded driver-B histories / driver-A runs; non-trivial = at least one non-empty round and at least one "
              "pair of live orders tied in price and time compared.",
@@ -73,8 +73,8 @@ def registry() -> Dict[str, Check]:
     )
     reg["C03"] = Check(
         "C03", {"C03"},
-        [Batch("B-mix", gen_b.gen_history, 40000, 400000, driver="B", budget_s=5.0),
-         Batch("A-engine", gen_a.gen_engine, 2500, 40000, driver="A", budget_s=20.0, profile="engine")],
+        [Batch("B-mix", gen_b.gen_history, 40000, 400000, driver="B", budget_s=30.0),
+         Batch("A-engine", gen_a.gen_engine, 2500, 40000, driver="A", budget_s=90.0, profile="engine")],
         nontrivial=lambda s: s["probes"].get("crossed_book_cleared", 0) + s["probes"].get("market_vs_market_pair", 0) > 0,
         rule="Seeded driver-B histories / driver-A runs; non-trivial = a crossed book accumulated during an outage was "
              "cleared by one round with >= 2 fills, or market orders met market orders.",
@@ -83,8 +83,8 @@ def registry() -> Dict[str, Check]:
     )
     reg["C04"] = Check(
         "C04", {"C04"},
-        [Batch("B-mix", gen_b.gen_history, 30000, 400000, driver="B", budget_s=5.0),
-         Batch("A-engine", gen_a.gen_engine, 3000, 40000, driver="A", budget_s=20.0, profile="engine_hostile")],
+        [Batch("B-mix", gen_b.gen_history, 30000, 400000, driver="B", budget_s=30.0),
+         Batch("A-engine", gen_a.gen_engine, 3000, 40000, driver="A", budget_s=90.0, profile="engine_hostile")],
         nontrivial=lambda s: s["stats"].get("expiries", 0) > 0 and s["stats"].get("cancels", 0) > 0,
         rule="Seeded driver-B histories / driver-A runs; non-trivial = at least one expiry and one cancel happened.",
         need_probes=["partial_fill_then_cancel", "partial_fill_then_expiry", "cancel_after_filled", "cancel_after_expired",
@@ -92,8 +92,8 @@ def registry() -> Dict[str, Check]:
     )
     reg["C08"] = Check(
         "C08", {"C08"},
-        [Batch("B-mix", gen_b.gen_history, 30000, 400000, driver="B", budget_s=5.0),
-         Batch("A-engine", gen_a.gen_engine, 3000, 40000, driver="A", budget_s=20.0, profile="engine")],
+        [Batch("B-mix", gen_b.gen_history, 30000, 400000, driver="B", budget_s=30.0),
+         Batch("A-engine", gen_a.gen_engine, 3000, 40000, driver="A", budget_s=90.0, profile="engine")],
         nontrivial=lambda s: s["probes"].get("book_event_while_stopped", 0) > 0 and s["stats"].get("fills", 0) > 0,
         rule="Seeded driver-B histories / driver-A runs; non-trivial = book events happened while the market was not "
              "running and at least one fill happened.",
@@ -101,8 +101,8 @@ def registry() -> Dict[str, Check]:
     )
     reg["C19"] = Check(
         "C19", {"C19"},
-        [Batch("B-mix", gen_b.gen_history, 30000, 400000, driver="B", budget_s=5.0),
-         Batch("A-engine", gen_a.gen_engine, 2000, 30000, driver="A", budget_s=20.0, profile="engine")],
+        [Batch("B-mix", gen_b.gen_history, 30000, 400000, driver="B", budget_s=30.0),
+         Batch("A-engine", gen_a.gen_engine, 2000, 30000, driver="A", budget_s=90.0, profile="engine")],
         nontrivial=lambda s: s["probes"].get("c19_off_grid_buy", 0) > 0 and s["probes"].get("c19_off_grid_sell", 0) > 0,
         rule="Every accepted limit order of every history is an instance; non-trivial = off-grid prices on both sides "
              "were accepted in the run.",
@@ -110,8 +110,8 @@ def registry() -> Dict[str, Check]:
     )
     reg["C05"] = Check(
         "C05", {"C05"},
-        [Batch("A-ledger", gen_a.gen_world, 4000, 40000, driver="A", budget_s=30.0, profile="ledger"),
-         Batch("B-mix", gen_b.gen_history, 15000, 200000, driver="B", budget_s=5.0)],
+        [Batch("A-ledger", gen_a.gen_world, 4000, 40000, driver="A", budget_s=90.0, profile="ledger"),
+         Batch("B-mix", gen_b.gen_history, 15000, 200000, driver="B", budget_s=30.0)],
         plugins=lambda: [oracles_a.LedgerPlugin()],
         nontrivial=lambda s: s["stats"].get("fills", 0) >= 3,
         rule="Driver-A runs (markets incl. index, scripted normal/HFT agents, built-in agents) and driver-B "
@@ -120,7 +120,7 @@ def registry() -> Dict[str, Check]:
     )
     reg["C06"] = Check(
         "C06", {"C06"},
-        [Batch("A-clock", gen_a.gen_world, 300, 6000, driver="A", budget_s=60.0, profile="clock")],
+        [Batch("A-clock", gen_a.gen_world, 300, 6000, driver="A", budget_s=240.0, profile="clock")],
         plugins=lambda: [oracles_a.ClockPlugin(), oracles_a.IndexPlugin()],
         nontrivial=lambda s: s["probes"].get("storage_chunk_boundary_crossed", 0) > 0 and s["stats"].get("fills", 0) > 0,
         rule="Driver-A runs with 1-5 sessions, small storage/generation chunks or > 200 steps; non-trivial = a storage "
@@ -129,7 +129,7 @@ def registry() -> Dict[str, Check]:
     )
     reg["C09"] = Check(
         "C09", {"C09", "C03"},
-        [Batch("A-sessions", gen_a.gen_world, 6000, 80000, driver="A", budget_s=30.0, profile="sessions")],
+        [Batch("A-sessions", gen_a.gen_world, 6000, 80000, driver="A", budget_s=90.0, profile="sessions")],
         plugins=lambda: [oracles_a.SessionRulesPlugin()],
         nontrivial=lambda s: s["probes"].get("normal_cap_reached", 0) + s["probes"].get("hft_cap_reached", 0) > 0,
         rule="Driver-A runs over session lists with all flag combinations, caps incl. 0, rates incl. 0 and 1, "
@@ -138,14 +138,14 @@ def registry() -> Dict[str, Check]:
     )
     reg["C10"] = Check(
         "C10", {"C10", "C04"},
-        [Batch("A-logger", gen_a.gen_world, 5000, 60000, driver="A", budget_s=30.0, profile="logger")],
+        [Batch("A-logger", gen_a.gen_world, 5000, 60000, driver="A", budget_s=90.0, profile="logger")],
         plugins=lambda: [oracles_a.LoggerPlugin()],
         nontrivial=lambda s: s["stats"].get("fills", 0) > 0 and s["stats"].get("expiries", 0) > 0 and s["stats"].get("cancels", 0) > 0,
         rule="Driver-A runs with all event kinds; non-trivial = the run contained fills, cancels and expiries.",
     )
     reg["C11"] = Check(
         "C11", {"C11"},
-        [Batch("A-callbacks", gen_a.gen_world, 5000, 60000, driver="A", budget_s=30.0, profile="callbacks")],
+        [Batch("A-callbacks", gen_a.gen_world, 5000, 60000, driver="A", budget_s=90.0, profile="callbacks")],
         plugins=lambda: [oracles_a.CallbackPlugin()],
         nontrivial=lambda s: s["stats"].get("fills", 0) > 0 and s["stats"].get("cancels", 0) > 0,
         rule="Driver-A runs with scripted normal and HFT agents; non-trivial = fills and cancels happened.",
@@ -153,7 +153,7 @@ def registry() -> Dict[str, Check]:
     )
     reg["C13"] = Check(
         "C13", {"C13"},
-        [Batch("A-hooks", gen_a.gen_world, 5000, 60000, driver="A", budget_s=30.0, profile="hooks")],
+        [Batch("A-hooks", gen_a.gen_world, 5000, 60000, driver="A", budget_s=90.0, profile="hooks")],
         plugins=lambda: [oracles_a.HooksPlugin()],
         nontrivial=lambda s: s["stats"].get("probe_calls", 0) > 0 and s["stats"].get("fills", 0) > 0,
         rule="Driver-A runs with 1-6 generated probe events (hook kinds x time lists x market filters); "
@@ -162,7 +162,7 @@ def registry() -> Dict[str, Check]:
     )
     reg["C17"] = Check(
         "C17", {"C17"},
-        [Batch("A-index", gen_a.gen_world, 4000, 50000, driver="A", budget_s=30.0, profile="index")],
+        [Batch("A-index", gen_a.gen_world, 4000, 50000, driver="A", budget_s=90.0, profile="index")],
         plugins=lambda: [oracles_a.IndexPlugin()],
         nontrivial=lambda s: s["probes"].get("unequal_weights_checked", 0) > 0 and s["stats"].get("fills", 0) > 0,
         rule="Driver-A runs with an index market over 2-4 components with unequal outstanding shares; "
@@ -171,7 +171,7 @@ def registry() -> Dict[str, Check]:
     )
     reg["C14"] = Check(
         "C14", {"C14", "C19"},
-        [Batch("A-shocks", gen_a.gen_rules, 6000, 80000, driver="A", budget_s=30.0, profile="shocks")],
+        [Batch("A-shocks", gen_a.gen_rules, 6000, 80000, driver="A", budget_s=90.0, profile="shocks")],
         plugins=lambda: [oracles_rules.ShockPlugin()],
         nontrivial=lambda s: s["probes"].get("fund_shock_fired", 0) + s["probes"].get("mistake_replaced", 0) > 0,
         rule="Driver-A runs with 2-4 markets and 1-4 fundamental / order-mistake shocks; non-trivial = a shock fired.",
@@ -180,7 +180,7 @@ def registry() -> Dict[str, Check]:
     )
     reg["C15"] = Check(
         "C15", {"C15", "C19"},
-        [Batch("A-limit", gen_a.gen_rules, 6000, 80000, driver="A", budget_s=30.0, profile="limit")],
+        [Batch("A-limit", gen_a.gen_rules, 6000, 80000, driver="A", budget_s=90.0, profile="limit")],
         plugins=lambda: [oracles_rules.PriceLimitPlugin()],
         nontrivial=lambda s: s["probes"].get("c15_clipped_high", 0) + s["probes"].get("c15_clipped_low", 0) > 0,
         rule="Driver-A runs with 2-4 markets and a price limit rule on a subset; non-trivial = a price was clipped.",
@@ -189,8 +189,8 @@ def registry() -> Dict[str, Check]:
     )
     reg["C16"] = Check(
         "C16", {"C16"},
-        [Batch("A-halt", gen_a.gen_rules, 5000, 60000, driver="A", budget_s=30.0, profile="halt"),
-         Batch("B-mix", gen_b.gen_history, 10000, 150000, driver="B", budget_s=5.0)],
+        [Batch("A-halt", gen_a.gen_rules, 5000, 60000, driver="A", budget_s=90.0, profile="halt"),
+         Batch("B-mix", gen_b.gen_history, 10000, 150000, driver="B", budget_s=30.0)],
         plugins=lambda: [oracles_rules.HaltPlugin(), oracles_a.SessionRulesPlugin()],
         nontrivial=lambda s: s["probes"].get("halt_triggered", 0) > 0,
         rule="Driver-A runs with trading halt rules and price-walking scripted agents; non-trivial = a halt was triggered.",
@@ -202,7 +202,7 @@ def registry() -> Dict[str, Check]:
         [Batch("F-scripted", gen_f.gen_fund, 15000, 150000, driver="F", budget_s=30.0, profile="scripted"),
          Batch("F-real", gen_f.gen_fund, 6000, 60000, driver="F", budget_s=30.0, profile="real"),
          Batch("F-moments", gen_f.gen_moments, 16, 320, driver="F", budget_s=120.0, profile="moments"),
-         Batch("A-shocks", gen_a.gen_rules, 1500, 20000, driver="A", budget_s=30.0, profile="shocks")],
+         Batch("A-shocks", gen_a.gen_rules, 1500, 20000, driver="A", budget_s=90.0, profile="shocks")],
         plugins=lambda: [oracles_rules.ShockPlugin(label="C12")],
         nontrivial=lambda s: s["probes"].get("scripted_covariance_checked", 0) + s["probes"].get("zero_vol_step", 0) > 0
         and s["stats"].get("f_steps", 0) >= 20,
@@ -215,7 +215,7 @@ def registry() -> Dict[str, Check]:
     )
     reg["C20"] = Check(
         "C20", {"C20"},
-        [Batch("A-agents", gen_a.gen_agents, 3000, 40000, driver="A", budget_s=30.0, profile="agents")],
+        [Batch("A-agents", gen_a.gen_agents, 3000, 40000, driver="A", budget_s=90.0, profile="agents")],
         plugins=lambda: [oracles_c20.AgentsPlugin()],
         exc_is_violation=_c20_exc,
         nontrivial=lambda s: s["stats"].get("agent_decisions", 0) >= 5 and s["stats"].get("fills", 0) > 0,
@@ -228,8 +228,8 @@ def registry() -> Dict[str, Check]:
     )
     reg["C18"] = Check(
         "C18", {"C18"},
-        [Batch("A-config", c18.gen_config, 20000, 300000, driver="A", budget_s=5.0, profile="valid"),
-         Batch("A-hostile-config", c18.gen_config, 4000, 60000, driver="A", budget_s=5.0, profile="hostile")],
+        [Batch("A-config", c18.gen_config, 20000, 300000, driver="A", budget_s=10.0, profile="valid"),
+         Batch("A-hostile-config", c18.gen_config, 4000, 60000, driver="A", budget_s=10.0, profile="hostile")],
         plugins=lambda: [c18.ConfigPlugin()],
         exc_is_violation=_c18_exc, watchdog_prop=_wd_c18,
         nontrivial=lambda s: s["stats"].get("c18_entities", 0) >= 3 or any(k.startswith("hostile_config_rejected") for k in s["probes"]),
@@ -242,7 +242,7 @@ def registry() -> Dict[str, Check]:
     )
     reg["C07"] = Check(
         "C07", {"C07"},
-        [Batch("A-kitchen", c07.gen_kitchen, 80, 1500, driver="A", run=c07.run_c07, budget_s=240.0, profile="kitchen")],
+        [Batch("A-kitchen", c07.gen_kitchen, 80, 1500, driver="A", run=c07.run_c07, budget_s=900.0, profile="kitchen")],
         nontrivial=lambda s: s["stats"].get("fills", 0) > 0 and s["stats"].get("expiries", 0) > 0,
         rule="Kitchen-sink driver-A scenarios (all built-in agent, market and event types, correlated fundamentals, "
              "scripted agents drawing from the global generators, probes), each executed in process under two other "
